@@ -73,6 +73,10 @@ def radicand(rng, tier, n):
         return v
     return big(rng, tier)
 
+def tame_root_case(x, n):
+    """(kept as a hook) no taming since /repo 440594f: nth_root starts from 2^ceil(bits/n)"""
+    return x
+
 def ilog_pair(rng, tier):
     bases = [2, 3, 4, 5, 7, 8, 10, 10, 16, 255, 256, 1000, (1 << 32) - 1, 1 << 32, (1 << 32) + 1, (1 << 63), (1 << 64) - 1,
              1 << 64, (1 << 64) + 1, 10 ** 19, 10 ** 20, 3 ** 45, (1 << 127) - 1, 1 << 127, (1 << 128) - 1, 1 << 128, (1 << 128) + 1,
@@ -119,12 +123,24 @@ def prim_val(rng, bits):
         return min((1 << bits) - 1, max(0, s ** r + rng.choice([-1, 0, 1])))
     return rng.getrandbits(rng.randrange(1, bits + 1))
 
+def source_table():
+    """LOG2_TAB of base/src/math/log.rs packed little-endian (ties the Lean table theorem to the source text)"""
+    import re
+    src = open("/repo/base/src/math/log.rs").read()
+    m = re.search(r"const LOG2_TAB: \[u8; 128\] = \[(.*?)\];", src, re.S)
+    if not m:
+        return None
+    vals = [int(x, 16) for x in re.findall(r"0x([0-9a-fA-F]{2})", m.group(1))]
+    return sum(v << (8 * k) for k, v in enumerate(vals)) if len(vals) == 128 else None
+
 def nontrivial(c):
     import re
     return any(len(a.lstrip('-')) > 32 for a in c.args if re.fullmatch(r"-?[0-9a-f]+", a)) or c.op.startswith("p.")
 
 def generate(rng, tier):
     q = tier == "quick"
+    t = source_table()
+    yield Case("tab.log2", [hx(t) if t is not None else "0"], nontrivial=False)
     # ---- gcd / gcd_ext
     for i in range(700 if q else 14000):
         a, b = gcd_pair(rng, tier)
@@ -152,6 +168,7 @@ def generate(rng, tier):
                 n = max(0, n)
             if x.bit_length() > 3000 and n > 2:
                 x >>= x.bit_length() - 3000
+            x = tame_root_case(x, n)
             yield Case("u.nthroot", [hx(x), dec(n)])
         elif r < 0.88:
             x = signed(rng, radicand(rng, tier, 2))
@@ -164,7 +181,14 @@ def generate(rng, tier):
             x = signed(rng, radicand(rng, tier, n if n else 3))
             if abs(x).bit_length() > 3000 and n > 2:
                 x = (abs(x) >> (abs(x).bit_length() - 3000)) * (1 if x > 0 else -1)
+            x = tame_root_case(abs(x), n) * (1 if x >= 0 else -1)
             yield Case("i.nthroot", [hx(x), dec(n)])
+    # guard cases for the O(n^2) Newton descent fixed in /repo 440594f (degree large, bit length ~1.6 n):
+    # with the old start value 2^floor(bits/n) these need ~0.4 n^2 steps (n = 1000: > 10 min) and show up as `hang`
+    for n in ([100, 500, 1000] if q else [100, 300, 500, 1000, 1500, 2000]):
+        bits = int(1.6 * n) - rng.randrange(0, 3)
+        yield Case("u.nthroot", [hx((1 << (bits - 1)) + rng.getrandbits(bits - 2)), dec(n)])
+        yield Case("i.nthroot", [hx(-((1 << (bits - 1)) + rng.getrandbits(bits - 2))), dec(n + 1 - n % 2)])
     # ---- ilog / remove
     for i in range(500 if q else 9000):
         x, b = ilog_pair(rng, tier)
